@@ -190,7 +190,23 @@ class SymNP(types.ModuleType):
     def _unary(self, name, x):
         def one(v):
             if isinstance(v, Sym):
-                return Sym(core.uf(name.upper())(v.e))
+                r = core.uf(name.upper())(v.e)
+                if name in ('log', 'log10') and core.CTX is not None:
+                    # true facts about the logarithm (weak side constraints) and its domain obligation
+                    k = (name, r.get_id())
+                    if k not in core.CTX._logseen:
+                        core.CTX._logseen.add(k)
+                        core.CTX.side.append(core.z3.Implies(v.e > 1, r > 0))
+                        core.CTX.side.append(core.z3.Implies(core.z3.And(v.e > 0, v.e < 1), r < 0))
+                        core.CTX.side.append(core.z3.Implies(v.e == 1, r == 0))
+                        core.CTX.domain.append((name, v.e > 0))
+                        # strictly increasing on the positive axis: one lemma per pair of applications on this path
+                        prev = core.CTX._logs.setdefault(name, [])
+                        for (a0, r0) in prev[-12:]:
+                            core.CTX.side.append(core.z3.Implies(core.z3.And(a0 > 0, a0 < v.e), r0 < r))
+                            core.CTX.side.append(core.z3.Implies(core.z3.And(v.e > 0, v.e < a0), r < r0))
+                        prev.append((v.e, r))
+                return Sym(r)
             return getattr(math, _MATHNAME.get(name, name))(v)
         if isinstance(x, _np.ndarray):
             if x.dtype != object:
@@ -321,7 +337,8 @@ class SymNP(types.ModuleType):
     def argmax(self, a, axis=None):
         if not _has_sym(a):
             return _np.argmax(_np.asarray(a, dtype=float) if isinstance(a, _np.ndarray) and a.dtype == object else a, axis=axis)
-        assert axis is None
+        if axis is not None:
+            return self._along(self.argmax, a, axis, int)
         flat = _np.asarray(a, dtype=object).ravel()
         bi, bm = 0, flat[0]
         for i in range(1, len(flat)):
@@ -329,10 +346,19 @@ class SymNP(types.ModuleType):
                 bi, bm = i, flat[i]
         return bi
 
+    def _along(self, fn, a, axis, dtype=object):
+        """Apply a reduction of a 1-d vector along `axis` of an object array."""
+        arr = _np.moveaxis(_np.asarray(a, dtype=object), axis, -1)
+        out = _np.empty(arr.shape[:-1], dtype=dtype)
+        for idx in _np.ndindex(*arr.shape[:-1]):
+            out[idx] = fn(arr[idx])
+        return out
+
     def argmin(self, a, axis=None):
         if not _has_sym(a):
             return _np.argmin(a, axis=axis)
-        assert axis is None
+        if axis is not None:
+            return self._along(self.argmin, a, axis, int)
         flat = _np.asarray(a, dtype=object).ravel()
         bi, bm = 0, flat[0]
         for i in range(1, len(flat)):
